@@ -198,9 +198,9 @@ def worker(args):
     terms, infos = [], []
     for i in range(n):
         try:
-            term, info, amb = common.guarded(lambda: gen_history(rng, res), 20)
+            term, info, amb = common.guarded(lambda: gen_history(rng, res), 120)
         except common.ImplTimeout:
-            res.bump("gave_up_20s")
+            res.bump("gave_up_120s")
             continue
         terms.append(term)
         infos.append(info)
@@ -216,6 +216,8 @@ def correspondence(res):
     W = 14
     n = 210 if res.tier == "quick" else 840
     terms, infos = c02.parallel(res, worker, [(res.seed * 100 + w, max(1, n // W)) for w in range(W)])
+    if not infos:
+        raise Broken("no request history could be run (every one exceeded the 120 s backstop)", "")
     res.sample(infos[0])
     corr = common.run_case_codes("C12", "corr", HEADER, terms, "c12_corr", chunk=40, ctype=CT)
     prop = common.run_case_codes("C12", "prop", HEADER, terms, "c12_prop", chunk=40, ctype=CT)
